@@ -44,6 +44,13 @@ REPORTED = {
                              "dump 2 KiB): print_args let the remaining length wrap, print_char never looked at it",
     "chrome-ptr-symbol-escape": "dump --chrome printed the symbol name a pointer argument resolves to raw inside the JSON "
                                 "string of the arguments / retval member",
+    "chrome-struct-name-escape": "dump --chrome printed the type name of a struct argument (from the argument spec / "
+                                 "debug info) raw inside the JSON string of the arguments member",
+    "graph-last-time-alias": "uftrace graph closed the open calls of a task whose last record is a perf (sched) event at the "
+                             "time of the last perf event of ANY task: task->rstack pointed to get_perf_record()'s one "
+                             "static record",
+    "chrome-close-sched-name": "dump --chrome ended the linux:schedule call of a task that is switched out when the data "
+                               "ends with an E event named <30d42> / <30d47> (the event id taken for an address)",
     "chrome-comm-event-escape": "dump --chrome printed the new name of a renamed task (perf COMM event) raw into the "
                                 "process_name/thread_name metadata events",
     "dump-sched-preempt": "do_dump_replay did not pass the sched-out event of a pre-empted task to the exporters: the "
@@ -178,18 +185,34 @@ def gen_case(rng, pool, big=False, avoid_trunc=True):
     for tid, _, _ in tasks:
         st = stacks[tid]
         keep = rng.randrange(0, len(st) + 1) if (leave_open and st) else 0
-        if st and sched_sym is not None and st[-1] in (sched_sym, sched_sym + 1):
-            keep = min(keep, len(st) - 1)                          # never left switched out
+        if st and sched_sym is not None and st[-1] in (sched_sym, sched_sym + 1) and rng.random() < 0.7:
+            keep = min(keep, len(st) - 1)                          # mostly not left switched out
         while len(st) > keep:
             clock += rng.choice(steps[1:])
             recs.append((tid, False, st.pop(), clock))
+    # a task that stops at one of its scheduler events (switched out for good, or switched in and then killed) while the
+    # others go on: its open calls end at ITS last record (class of defect graph-last-time-alias)
+    if sched_sym is not None and len(tasks) >= 2 and rng.random() < 0.5:
+        early = rng.choice(tasks)[0]
+        idx = [i for i, r in enumerate(recs) if r[0] == early and r[2] in (sched_sym, sched_sym + 1)]
+        if idx:
+            i = rng.choice(idx)
+            cut = recs[i][3]
+            recs = [r for j, r in enumerate(recs) if r[0] != early or j <= i]
+            comms = [c for c in comms if c[1] != early or c[0] < cut]
+            uevents = [u for u in uevents if u[0] != early or u[1] < cut]
     # a task without any record is dropped from the directory (its .dat would be empty)
     # string arguments / return values on the calls of one plainly named function
     strs = {}
     argkinds = ""
+    tname = rng.choice([None, b"<lambda", b"st", pool.one(), pool.one(), pool.one()])
+    if tname is not None and tname != b"<lambda" and not tname_ok(tname):
+        tname = bytes(c for c in tname if c not in b",;%@\n\0") or None
+    tsize = rng.choice([0, 4, 8, 16, 20])
     if argsym is not None:
         heavy = rng.random() < 0.35                 # many / long / escape-heavy arguments: text beyond 1 KiB and 2 KiB
-        argkinds = "".join(rng.choice("ssscpu") for _ in range(rng.randrange(4, 11) if heavy else rng.randrange(1, 4)))
+        letters = "ssscpu" + ("tfdixo" if rng.random() < 0.5 else "")
+        argkinds = "".join(rng.choice(letters) for _ in range(rng.randrange(4, 11) if heavy else rng.randrange(1, 4)))
 
         def one_string(long_ok):
             k = rng.randrange(7)
@@ -216,6 +239,15 @@ def gen_case(rng, pool, big=False, avoid_trunc=True):
                         if kd == "p":      # a pointer: to one of the functions (printed as &name), null, or anywhere else
                             return ("p", rng.choice([BASE + 0x1000 + 0x100 * rng.randrange(nsym)] * 3 +
                                                     [0, 0x10, 0x7ffd12345678, (1 << 64) - 1, BASE + 0xfff]))
+                        if kd == "t":      # a struct passed by value: only its type name and {...} / {} are shown
+                            return ("t", 0)
+                        if kd == "f":      # a double k/64 (six decimals, exact), as (k << 1 | sign)
+                            return ("f", rng.choice([0, 1, 2, 3, 64 << 1, (64 << 1) | 1, 127 << 1, rng.randrange(1 << 20),
+                                                     rng.randrange(1 << 51)]))
+                        if kd in "dixo":   # auto / signed / hex / octal: the boundaries of the auto format
+                            return (kd, rng.choice([0, 1, 7, 8, 100000, 100001, (1 << 64) - 1, (1 << 64) - 100000,
+                                                    (1 << 64) - 100001, 0xffff0000, 0xffff0001, 0xffffffff, 1 << 32,
+                                                    1 << 63, rng.randrange(1 << 64), rng.randrange(1 << 20)]))
                         return ("u", rng.choice([0, 1, 99999, 100000, 100001, 1 << 32, (1 << 64) - 1, rng.randrange(1 << 40)]))
                     strs[i] = [one_arg(kd) for kd in argkinds]
                 else:
@@ -254,7 +286,7 @@ def gen_case(rng, pool, big=False, avoid_trunc=True):
     sample = min(sample, 999999999)
     exe = rng.choice(["prog", "prog", "a.out", "t-abc_1.2", "x"])
     return {"tasks": tasks, "syms": syms, "recs": recs, "sample": max(1, sample), "exe": exe,
-            "argsym": argsym, "strs": strs, "argkinds": argkinds, "sched_sym": sched_sym, "comms": comms, "uevents": uevents,
+            "argsym": argsym, "strs": strs, "argkinds": argkinds, "tname": tname, "tsize": tsize, "sched_sym": sched_sym, "comms": comms, "uevents": uevents,
             "lead_in": [t[0] for t in tasks if with_perf and rng.random() < 0.5]}
 
 
@@ -277,7 +309,16 @@ def write_dir(case, d, cmdline=b"prog arg", with_cmdline=True, exename=None):
             return b""
         b = b""
         for kd, x in v:                  # read_task_arg: every argument is padded to 4 bytes
-            b += (struct.pack("<H", len(x)) + x) if kd == "s" else bytes([x]) if kd == "c" else struct.pack("<Q", x)
+            if kd == "s":
+                b += struct.pack("<H", len(x)) + x
+            elif kd == "c":
+                b += bytes([x])
+            elif kd == "t":
+                b += b"\xa5" * (case.get("tsize") or 0)
+            elif kd == "f":
+                b += struct.pack("<d", (-1.0 if x & 1 else 1.0) * (x >> 1) / 64.0)
+            else:
+                b += struct.pack("<Q", x)
             b += b"\0" * (-len(b) % 4)
         return b
     for tid, pid, ppid in case["tasks"]:
@@ -310,9 +351,13 @@ def write_dir(case, d, cmdline=b"prog arg", with_cmdline=True, exename=None):
         for t in tasks:        # the scheduler records of a task live in the perf file, not in its .dat
             t["recs"] = [r for r in t["recs"] if not r.get("sched")]
     datadir.write(desc, d, with_cmdline=with_cmdline,
-                  argspec={"argspec": "strfn@" + ",".join("arg%d/%s" % (n + 1, kd) for n, kd in
+                  argspec={"argspec": "strfn@" + ",".join(spec_of(case, n, kd) for n, kd in
                                                           enumerate(case.get("argkinds") or "s")),
                            "retspec": "strfn@retval/s"} if strs else None)
+    if strs and case.get("tname") is not None:
+        path = os.path.join(d, "info")
+        b = open(path, "rb").read()
+        open(path, "wb").write(b.replace(TNAME_MARK, case["tname"]))
     if perf:
         path = os.path.join(d, "info")
         b = bytearray(open(path, "rb").read())
@@ -320,6 +365,20 @@ def write_dir(case, d, cmdline=b"prog arg", with_cmdline=True, exename=None):
         open(path, "wb").write(bytes(b))
         open(os.path.join(d, "perf-cpu0.dat"), "wb").write(perf)
     return d
+
+
+TNAME_MARK = b"TYPENAMEGOESHERE"
+
+
+def spec_of(case, n, kd):
+    """the argument spec as record stores it in the info file; the type name of a struct (any bytes) is put in afterwards"""
+    if kd == "t":
+        return "arg%d/t%d%s" % (n + 1, case.get("tsize") or 0, "" if case.get("tname") is None else ":" + TNAME_MARK.decode())
+    return "arg%d/%s" % (n + 1, kd)
+
+
+def tname_ok(n):
+    return bool(n) and not any(c in n for c in b",;%@\n\0") and n != b"<lambda"
 
 
 SCHED = b"linux:schedule"
@@ -530,7 +589,7 @@ def copts(l):
     return "[" + "; ".join("None" if x is None else "Some %s" % cb(x) for x in l) + "]"
 
 
-def cargs(l, syms=()):
+def cargs(l, syms=(), tname=None, tsize=0):
     """per record: None | Some [AStr bytes; AChr n; APtr (Some name|None) v; AUint v ...]"""
     def one(kd, x):
         if kd == "s":
@@ -539,6 +598,12 @@ def cargs(l, syms=()):
             return "AChr (n_ %d)" % x
         if kd == "u":
             return "AUint %s" % cn(x)
+        if kd == "t":
+            return "AStruct %s %d" % ("None" if tname is None else "(Some %s)" % cb(tname), tsize)
+        if kd == "f":
+            return "AFlt %s %s" % ("true" if x & 1 else "false", cn(x >> 1))
+        if kd in "dixo":
+            return "%s %s" % ({"d": "AAuto", "i": "ASint", "x": "AHex", "o": "AOct"}[kd], cn(x))
         k, off = divmod(x - BASE - 0x1000, 0x100)
         # task_find_sym_addr: the symbol whose [addr, addr + size) holds the value (size 0x80)
         nm = syms[k] if (0 <= k < len(syms) and off < 0x80) else None
@@ -571,7 +636,7 @@ def ccase(c, p):
         "; ".join(crow(r) for r in p["graph"]),
         clines(p["flame0"]), clines(p["flameS"]), clines(p["dot"]), clines(p["mermaid"]),
         "; ".join(ccev(e) for e in p["chrome"]), "true" if p["json_ok"] else "false",
-        cargs([(c.get("strs") or {}).get(i) for i in range(len(c["recs"]))], c["syms"]),
+        cargs([(c.get("strs") or {}).get(i) for i in range(len(c["recs"]))], c["syms"], c.get("tname"), c.get("tsize") or 0),
         copts([e[6] for e in p["chrome"]]))
 
 
@@ -678,6 +743,7 @@ def evaluate_cases(ctx, cases, parsed, name="cases", flame_fixed=False):
 def case_json(c, p=None):
     j = {"tasks": c["tasks"], "syms": [s.hex() for s in c["syms"]], "recs": c["recs"], "sample": c["sample"],
          "exe": c["exe"], "argkinds": c.get("argkinds") or "", "sched_sym": c.get("sched_sym"), "lead_in": c.get("lead_in") or [], "uevents": c.get("uevents") or [],
+         "tname": None if c.get("tname") is None else c["tname"].hex(), "tsize": c.get("tsize") or 0,
          "comms": [[tm, tid, nm.hex()] for tm, tid, nm in (c.get("comms") or [])],
          "strs": {str(i): [[kd, x.hex() if kd == "s" else x] for kd, x in v] for i, v in (c.get("strs") or {}).items()}}
     if p is not None:
@@ -696,6 +762,7 @@ def case_from_json(j):
     return {"tasks": [tuple(t) for t in j["tasks"]], "syms": [bytes.fromhex(s) for s in j["syms"]],
             "recs": [tuple(r) for r in j["recs"]], "sample": j["sample"], "exe": j["exe"],
             "argkinds": j.get("argkinds") or "", "sched_sym": j.get("sched_sym"), "lead_in": j.get("lead_in") or [], "uevents": [tuple(u) for u in (j.get("uevents") or [])],
+            "tname": None if j.get("tname") is None else bytes.fromhex(j["tname"]), "tsize": j.get("tsize") or 0,
             "comms": [(tm, tid, bytes.fromhex(nm)) for tm, tid, nm in (j.get("comms") or [])],
             "strs": {int(i): [(kd, bytes.fromhex(x) if kd == "s" else x) for kd, x in v]
                      for i, v in (j.get("strs") or {}).items()}}
@@ -1124,6 +1191,42 @@ def witnesses(ctx, objdir, hexe):
     repro["dump-sched-preempt"] = (rc != 0 or not okj or sum(1 for e in evs if e[0]) != sum(1 for e in evs if not e[0])
                                    or b"main;f;f 1" not in out2)
     report_defect(ctx, "dump-sched-preempt", repro["dump-sched-preempt"], {"kind": "witness", "case": case_json(prec)})
+    # 11. a struct passed by value whose type name needs escaping
+    stc = {"tasks": [(100, 100, None)], "syms": [b"main", b"strfn"], "sample": 1, "exe": "prog", "argkinds": "tt",
+           "tname": b'pa"ir<\\x>', "tsize": 8,
+           "recs": [(100, True, 0, 1000), (100, True, 1, 1100), (100, False, 1, 1200), (100, False, 0, 1300)],
+           "strs": {1: [("t", 0), ("t", 0)]}}
+    write_dir(stc, d)
+    rc, out, err = uft(objdir, ["dump", "--chrome", "--no-pager", "-d", d])
+    ctx.case(key=("wit", "structname"), tags=["witness:struct-type-name"])
+    repro["chrome-struct-name-escape"] = rc != 0 or not parse_chrome(out)[0]
+    report_defect(ctx, "chrome-struct-name-escape", repro["chrome-struct-name-escape"],
+                  {"kind": "witness", "type_name": 'pa"ir<\\x>', "case": case_json(stc)})
+    # 12. a task switched out for good while another one goes on having sched events: its open calls end at ITS last record
+    lastc = {"tasks": [(100, 100, None), (101, 100, None)], "syms": [b"main", b"f", SCHED, SCHED_PRE], "sched_sym": 2,
+             "sample": 100, "exe": "prog",
+             "recs": [(100, True, 0, 1000), (101, True, 0, 1050), (100, True, 1, 1100), (100, True, 2, 1300),
+                      (101, True, 2, 2000), (101, False, 2, 2100), (101, False, 0, 2500)]}
+    write_dir(lastc, d)
+    rc, out, err = uft(objdir, ["graph", "--no-pager", "-d", d])
+    ctx.case(key=("wit", "lasttime"), tags=["witness:last-record-is-sched-out"])
+    try:
+        rows = parse_graph(out)
+    except ParseError:
+        rows = []
+    ftime = [r[3] for r in rows if r[1] == b"f"]
+    repro["graph-last-time-alias"] = rc != 0 or ftime != [(0, 200, 0)]
+    report_defect(ctx, "graph-last-time-alias", repro["graph-last-time-alias"],
+                  {"kind": "witness", "time_of_f": ftime, "expected": [0, 200, 0], "case": case_json(lastc)})
+    # 13. the same directory through dump --chrome: task 100 is switched out when the data ends
+    rc, out, err = uft(objdir, ["dump", "--chrome", "--no-pager", "-d", d])
+    okj, evs, _, _ = parse_chrome(out)
+    ctx.case(key=("wit", "stuck"), tags=["witness:switched-out-at-the-end"])
+    names100 = [e[3] for e in evs if e[2] is None]
+    repro["chrome-close-sched-name"] = (rc != 0 or not okj or
+                                        names100 != [b"main", b"f", b"linux:schedule", b"linux:schedule", b"f", b"main"])
+    report_defect(ctx, "chrome-close-sched-name", repro["chrome-close-sched-name"],
+                  {"kind": "witness", "names_of_task_100": [n.decode("latin-1") for n in names100], "case": case_json(lastc)})
     # sanity: the plain directory is valid JSON
     ok, out = chrome_ok()
     if not ok:
@@ -1346,6 +1449,16 @@ def tags_of(c):
         t.append("perf:task-renamed")
         if any(b in (0x22, 0x5c) or b < 0x20 or b > 0x7e for _, _, nm in c["comms"] for b in nm):
             t.append("perf:task-renamed-special-bytes")
+    if c.get("sched_sym") is not None:
+        k = c["sched_sym"]
+        perf_times = [r[3] for r in c["recs"] if r[2] in (k, k + 1)] + [cm[0] for cm in (c.get("comms") or [])]
+        for tid in {r[0] for r in c["recs"]}:
+            mine = [r for r in c["recs"] if r[0] == tid]
+            depth = sum(1 if r[1] else -1 for r in mine)
+            if mine[-1][2] in (k, k + 1) and depth > 0:
+                t.append("task-ends-switched-out" if mine[-1][1] else "task-ends-at-sched-in-with-open-calls")
+                if any(pt > mine[-1][3] for pt in perf_times):
+                    t.append("task-ends-at-sched-event,later-perf-event-elsewhere")
     allargs = list((c.get("strs") or {}).values())
     if allargs:
         t.append("string-args")
@@ -1362,6 +1475,19 @@ def tags_of(c):
             t.append("arg:uint")
         for v in allargs:
             for kd, x in v:
+                if kd == "t":
+                    tn = c.get("tname")
+                    t.append("arg:struct-unnamed" if tn is None else "arg:struct-lambda" if tn == b"<lambda" else
+                             "arg:struct-name-special-bytes" if any(b in (0x22, 0x5c) or b < 0x20 or b > 0x7e for b in tn)
+                             else "arg:struct-named")
+                    t.append("arg:struct-empty" if not c.get("tsize") else "arg:struct-nonempty")
+                if kd == "f":
+                    t.append("arg:double-negative" if x & 1 else "arg:double")
+                if kd == "d":
+                    t.append("arg:auto-%s" % ("decimal" if (x <= 100000 or x >= (1 << 64) - 100000) else
+                                              "int32-negative" if 0xffff0000 < x <= 0xffffffff else "hex"))
+                if kd in "ixo":
+                    t.append("arg:%s%s" % ({"i": "signed", "x": "hex", "o": "octal"}[kd], "-zero" if x == 0 else ""))
                 if kd == "p":
                     k, off = divmod(x - BASE - 0x1000, 0x100)
                     if 0 <= k < len(c["syms"]) and off < 0x80:
@@ -1440,6 +1566,16 @@ def run(ctx):
         fixed.append({"tasks": [(100, 100, None)], "syms": [b"main", b"strfn"], "sample": 1, "exe": "prog", "argkinds": "ss",
                       "recs": [(100, True, 0, 1000), (100, True, 1, 1100), (100, False, 1, 1200), (100, False, 0, 1300)],
                       "strs": {1: [("s", b"\x01" * nn + b"\0"), ("s", b"zz\0")], 2: [("s", b"\x01" * (nn + 1) + b"\0")]}})
+    # every other argument format at its boundaries; struct type names: none, gcc's <lambda, one that needs escaping,
+    # a long one that ends the buffer in the middle of the name
+    allk = [("t", 0), ("f", (129 << 1) | 1), ("f", 1 << 1), ("d", 100000), ("d", 100001), ("d", (1 << 64) - 100000),
+            ("d", (1 << 64) - 100001), ("d", 0xffff0000), ("d", 0xffff0001), ("d", 0xffffffff), ("d", 1 << 32), ("i", (1 << 64) - 1),
+            ("i", 1 << 63), ("i", (1 << 63) - 1), ("x", 0), ("x", (1 << 64) - 1), ("o", 0), ("o", 8), ("o", (1 << 64) - 1), ("t", 0)]
+    for tn, tsz in ((None, 0), (b"<lambda", 8), (b'pa"ir<\\,\x01\xff>'.replace(b",", b""), 16), (b"\x01" * 500, 4), (b"plain", 0)):
+        fixed.append({"tasks": [(100, 100, None)], "syms": [b"main", b"strfn"], "sample": 1, "exe": "prog",
+                      "argkinds": "".join(k for k, _ in allk), "tname": tn, "tsize": tsz,
+                      "recs": [(100, True, 0, 1000), (100, True, 1, 1100), (100, False, 1, 1200), (100, False, 0, 1300)],
+                      "strs": {1: list(allk)}})
     n = ctx.n(100, 1200)
     d = os.path.join(ctx.scratch, "dir")
     i = -1
